@@ -64,7 +64,9 @@ def get_attr(data, kind):
     if kind.startswith("hist"):
         return data.n_out_of_range
     if kind == "graph":
-        return data._scale
+        # an attribute of the harness' own (no private name of lena is read: a renaming must not alarm);
+        # copy.deepcopy copies the instance dictionary, so it is private to a branch exactly like lena's own
+        return getattr(data, "verif_mark", 0)
     if kind == "nested":
         return data[0]
     return data["a"]
@@ -74,7 +76,7 @@ def set_attr(data, kind, x):
     if kind.startswith("hist"):
         data.n_out_of_range = x
     elif kind == "graph":
-        data._scale = x
+        data.verif_mark = x
     elif kind == "nested":
         data[0] = x
     else:
